@@ -366,8 +366,20 @@ func (m *Machine) callVsym(caller *frame, fn *ssa.Function, args []Value) (Value
 	case "vsym_Yield":
 		m.yield()
 		return nil, true
+	case "vsym_Event":
+		// a named scheduling point: other threads may run before it; the global order of events
+		// is recorded so that a native replay can follow it
+		m.yield()
+		m.events = append(m.events, str(0))
+		return nil, true
 	case "vsym_ExploreSchedules":
 		m.explore = true
+		return nil, true
+	case "vsym_PreemptionBound":
+		m.preemptBound = int(fr.conc(args[0], "vsym_PreemptionBound"))
+		return nil, true
+	case "vsym_ExploreEvents":
+		m.explore, m.coarse = true, true
 		return nil, true
 	case "vsym_Join":
 		m.joinAll()
